@@ -750,8 +750,22 @@ func genProgram(r *rng, kind string, focus string) *program {
 		for i := 0; i < nx; i++ {
 			p.prefill = append(p.prefill, fmt.Sprintf("set x%d %s 5", i, v()))
 		}
+		if r.chance(1, 4) {
+			// a bulk pass: more evicted entries than any plausible batch size, each reported to a callback that
+			// writes to the cache again (the evicted key itself, or other keys)
+			p.cb = []int{6, 9}[r.intn(2)]
+			for i, top := nx, 66+r.intn(70); i < top; i++ {
+				p.prefill = append(p.prefill, fmt.Sprintf("set x%d %s 5", i, v()))
+			}
+		}
 		p.prefill = append(p.prefill, "tick 6")
 		p.threads = [][]string{{"deleteexpired"}}
+		if len(p.prefill) > 40 {
+			if r.chance(1, 2) {
+				p.threads = append(p.threads, []string{fmt.Sprintf("set y%d %s %d", r.intn(4), v(), int64(3_600_000_000_000))})
+			}
+			break
+		}
 		if r.chance(2, 3) {
 			p.threads = append(p.threads, []string{"deleteexpired"})
 		}
@@ -994,6 +1008,9 @@ type outcome struct {
 var forcedSchedule []int
 
 func explore(p *program, strategy int, schedSeed uint64, budget int, keepTrace bool, freezeAt int) *outcome {
+	if n := 400 * (len(p.prefill) + 8); n > budget {
+		budget = n // long programs (bulk cleanup passes) need proportionally more steps
+	}
 	vshim.Hook = nil
 	vshim.SetSeed(uint64(p.seed))
 	vshim.HashMode = p.hashMd
